@@ -54,6 +54,18 @@ CHECKS.update({
     "C16": _std("exploration", "Hypothesis-generated handler decision sequences x callback placements + exhaustive placement product; protocol-grammar oracle",
         "Generated decision sequences and callback placements through 20 entry points plus the complete product of placements x decision sequences x callback flavours; oracle is the per-retry protocol (consult once, before_sleep, sleep once, next attempt / SCHEDULED / ABORTED) and call-over-policy precedence.",
         E1_NOTE, "DESIGN.md §3 C16"),
+    "C08": _std("fault_enumeration", "Hypothesis-selected cases x exhaustive enumeration of crash points (raising callback at every invocation, exception thrown into / close() of the coroutine at every suspension point); admission-after-timeout oracle",
+        "For every generated case all crash points are enumerated (not sampled): each callback invocation raising ordinary/KeyboardInterrupt/SystemExit/CancelledError, and for async entries each exception type thrown into (or close() of) the coroutine at each await point; oracle uses public behaviour only: after the call ends and recovery_timeout_s elapses the next allow() must be admitted.",
+        E1_NOTE + "; async entry points are driven without an event loop (coro.send/throw/close), suspension points are the operation's awaits and the sleeps", "DESIGN.md §3 C08"),
+    "C09": _std("exploration", "Hypothesis-generated call sequences sharing one real breaker behind a spy; exactly-one-record oracle by final outcome",
+        "Generated sequences of 1-4 calls through 10 Policy entry points sharing a breaker that starts closed/open/half-open-ready; every admitted call must make exactly one record of the kind/class its final outcome implies, rejected calls none.",
+        E1_NOTE + "; a nested CircuitOpenError as the final failure only needs exactly one record (tests pin that it is not counted)", "DESIGN.md §3 C09"),
+    "C12": _std("exploration", "Differential testing: one generated case through 28 entry points, pairwise trace equality after call/execute normalisation",
+        "Differential oracle: the same generated case is executed through every entry point (Retry/Policy/RetryPolicy, from_config, context managers, @retry; call/execute; sync/async; plus breaker and no-retry groups) and the complete observable traces must be equal.",
+        E1_NOTE + "; classifier invocations and attempt hooks are excluded from the comparison (not listed by the property; see DESIGN.md observations)", "DESIGN.md §3 C12"),
+    "C15": _std("fault_enumeration", "Hypothesis-selected cases x exhaustive enumeration of (hook, invocation index | always) x rotating exception types; trace-equality metamorphic oracle",
+        "For every generated case each hook invocation is faulted in turn (and 'always'), with exception types rotating over 9 Exception subclasses; the observable trace must equal the silent-hook trace, including the other sink, the timeline, breaker and budget calls.",
+        E1_NOTE, "DESIGN.md §3 C15"),
 })
 
 PENDING_REASON = "check not built yet in this snapshot (work in progress; see DESIGN.md §3 for the planned generated-input check)"
